@@ -435,6 +435,26 @@ def rule_c08_r3(model: Model) -> RuleResult:
     return r
 
 
+def render_closure(model: Model, f: FuncInfo) -> t.List[FuncInfo]:
+    """A renderer together with the private methods of its class (called on self or on a node of the same class) and the private
+    module-level functions it calls: a renderer split into helpers is judged as a whole."""
+    out = [f]
+    for g in out:
+        for c in ast.walk(g.node):
+            if not isinstance(c, ast.Call):
+                continue
+            h: t.Optional[FuncInfo] = None
+            if isinstance(c.func, ast.Attribute) and c.func.attr.startswith('_') and not c.func.attr.startswith('__') and f.cls is not None:
+                h = model.find_method(f.cls.qualname, c.func.attr)
+            elif isinstance(c.func, ast.Name):
+                h = model.functions.get(model.resolve(c.func, g.module, g) or '')
+                if h is not None and (h.cls is not None or h.module is not f.module or not h.name.startswith('_')):
+                    h = None
+            if h is not None and h not in out and isinstance(h.node, ast.FunctionDef):
+                out.append(h)
+    return out
+
+
 def rule_c08_r4(model: Model) -> RuleResult:
     r = RuleResult('C08-R4', 'inside_sum discipline: product nodes render children outside a sum; sums pass inside_sum=True', floor=3)
     pe = model.func(f'{ERRMOD}.ProductErrorNode.print_error')
@@ -442,7 +462,8 @@ def rule_c08_r4(model: Model) -> RuleResult:
     de = model.func(f'{ERRMOD}.DuplicateKeyError.print_error')
     r.analysed.update([pe.qualname, se.qualname, de.qualname])
     for (f, want) in ((pe, False), (se, True)):
-        calls = [c for c in ast.walk(f.node) if isinstance(c, ast.Call) and isinstance(c.func, ast.Attribute) and c.func.attr == 'print_error']
+        calls = [c for g in render_closure(model, f) for c in ast.walk(g.node)
+                 if isinstance(c, ast.Call) and isinstance(c.func, ast.Attribute) and c.func.attr == 'print_error']
         r.instances += 1
         if not calls:
             r.fail(f.qualname, 'no child rendering', f.loc(), "children are not rendered")
